@@ -157,6 +157,32 @@ int main(void)
 				printf("ok %zu %016llx\n", n_issued, (unsigned long long)h);
 				n_issued++;
 			}
+		} else if (strcmp(t[0], "createfail") == 0 && nt == 1) {
+			/* instance_size = -1: malloc((size_t)-1) returns NULL, the call must fail with -ENOMEM
+			 * (or -EINVAL when the table is at its limit) and leave no object behind */
+			int32_t rc;
+			ndraws = 0;
+			drawpos = 0;
+			rc = qb_hdb_handle_create(&hdb, -1, &h);
+			if (rc == 0) printf("harness-error: create with instance_size -1 succeeded\n");
+			else printf("%s\n", vl_errname(rc));
+		} else if (strcmp(t[0], "dump") == 0 && nt == 1) {
+			/* the database's own state (struct qb_hdb / struct qb_hdb_handle), for the correspondence only:
+			 * handle_count, iterator, and per slot state:ref_count:check:instance */
+			uint32_t sl;
+			struct qb_hdb_handle *e;
+			printf("tbl hc=%u it=%u", (unsigned)hdb.handle_count, (unsigned)hdb.iterator);
+			for (sl = 0; sl < hdb.handle_count; sl++) {
+				if (qb_array_index(hdb.handles, (int32_t)sl, (void **)&e) != 0) {
+					printf(" %u:unreachable", sl);
+				} else if (e->instance) {
+					printf(" %u:%d:%d:%08x:%lld", sl, (int)e->state, (int)e->ref_count, (unsigned)e->check,
+					       (long long)((struct obj *)e->instance)->id);
+				} else {
+					printf(" %u:%d:%d:%08x:null", sl, (int)e->state, (int)e->ref_count, (unsigned)e->check);
+				}
+			}
+			printf("\n");
 		} else if (strcmp(t[0], "iter_reset") == 0 && nt == 1) {
 			qb_hdb_iterator_reset(&hdb);
 			printf("ok\n");
